@@ -10,7 +10,7 @@ func init() {
 	vhRegister("vh_C10_reduce", vh_C10_reduce)
 }
 
-var vhStepNames = []string{"s1", "s2", "s3"}
+var vhStepNames = []string{"s1", "s2", "s3", "s4"}
 var vhKeyIDs = []string{"aaaaaaaa11", "bbbbbbbb22", "cccccccc33"}
 
 func vspecArtsEq(a, b map[string]HashObj) bool {
@@ -28,8 +28,9 @@ func vspecArtsEq(a, b map[string]HashObj) bool {
 
 // vhArtsNilable: an artifact map may also be nil (a link whose JSON says "materials": null) or empty
 var vhArtsNilable bool
-var vhArtsEmptyHash bool // an artifact may carry an empty hash object
-var vhArtsConcrete bool  // with vhArtsNilable: only the shape (nil / empty / one artifact) is symbolic
+var vhArtsEmptyHash bool  // an artifact may carry an empty hash object
+var vhArtsConcrete bool   // with vhArtsNilable: only the shape (nil / empty / one artifact) is symbolic
+var vhArtsMaybeEmpty bool // a side may be the empty map: the same artifact as material of one link and product of another
 
 func vhSmallArts(tag string) map[string]HashObj {
 	if vhArtsNilable {
@@ -42,6 +43,13 @@ func vhSmallArts(tag string) map[string]HashObj {
 		if vhArtsConcrete {
 			return map[string]HashObj{"f-" + tag: {"sha256": "11"}}
 		}
+	}
+	if vhArtsMaybeEmpty {
+		// small domain: the side is empty or holds one artifact with one digest
+		if vChoice(tag+".empty", 2) == 1 {
+			return map[string]HashObj{}
+		}
+		return map[string]HashObj{vPick(tag+".name", "a", "b"): {"sha256": vPick(tag+".hash", "11", "22")}}
 	}
 	if vhArtsEmptyHash && vChoice(tag+".no-digests", 2) == 1 {
 		// an artifact recorded without any digest (a legal shape: "path": {})
@@ -99,13 +107,14 @@ func (c *vhChain) agree() bool {
 	return true
 }
 
-// a = {#steps, #links per step, 1: artifacts may carry an empty hash object}
+// a = {#steps, #links per step, 1: artifacts may carry an empty hash object; 2: the materials or the products may be empty}
 func vh_C05_reduce(a []int)      { vhC05(a, false) }
 func vh_C05_reduce_twin(a []int) { vhC05(a, true) }
 
 func vhC05(a []int, twin bool) {
 	vhArtsEmptyHash = len(a) > 2 && a[2] == 1
-	defer func() { vhArtsEmptyHash = false }()
+	vhArtsMaybeEmpty = len(a) > 2 && a[2] == 2
+	defer func() { vhArtsEmptyHash, vhArtsMaybeEmpty = false, false }()
 	c := vhBuildChain(a[0], a[1])
 	agree := c.agree()
 	reduced, err := ReduceStepsMetadata(c.layout, c.md)
